@@ -1,1 +1,631 @@
-fn main() { vkit::main(vec![]) }
+//! C19 — deterministic math is bit-stable and canonical.
+//!
+//! The same binary is built in three profiles (dev: opt 0 + debug assertions; release: opt 3;
+//! relsize: the repo's own release profile, opt "s" + lto + 1 cgu). `--digest` mode streams a
+//! BLAKE3 digest of output bit patterns over an integer-indexed input stream; the parent
+//! compares digests chunk by chunk and bisects a mismatch to the minimal input index.
+
+use serde::{Deserialize, Serialize};
+use serde_json::{json, Value};
+use std::process::Command;
+use std::time::Instant;
+use vkit::{Check, Ctx, Fail, Property, Recorder, Sub, Tier, Violation};
+use warp_math::scalar::{DFix64, F32Scalar};
+use warp_math::{fixed_q32_32, Mat4, Prng, Quat, Scalar, Vec3};
+
+// ---------------------------------------------------------------------------
+// input streams (pure integer functions of (seed, index): identical in every profile)
+
+fn mix(seed: u64, i: u64, j: u64) -> u64 {
+    let mut z = seed ^ i.wrapping_mul(0x9e37_79b9_7f4a_7c15) ^ j.wrapping_mul(0xd1b5_4a32_d192_ed03);
+    z = (z ^ (z >> 30)).wrapping_mul(0xbf58_476d_1ce4_e5b9);
+    z = (z ^ (z >> 27)).wrapping_mul(0x94d0_49bb_1331_11eb);
+    z ^ (z >> 31)
+}
+
+/// number of leading `specials()` entries used for n-ary special grids
+const CORE: usize = 30;
+
+fn specials() -> Vec<u32> {
+    let mut v: Vec<u32> = vec![
+        0x0000_0000, 0x8000_0000, 0x0000_0001, 0x8000_0001, 0x007f_ffff, 0x807f_ffff, 0x0080_0000, 0x8080_0000,
+        0x3f80_0000, 0xbf80_0000, 0x3f00_0000, 0x4000_0000, 0x7f7f_ffff, 0xff7f_ffff, 0x7f80_0000, 0xff80_0000,
+        0x7fc0_0000, 0xffc0_0000, 0x7fc0_0001, 0x7f80_0001, 0xffff_ffff, 0x3400_0000, 0x4b00_0000, 0x4b80_0000,
+        0x5f00_0000, 0xdf00_0000, 0x4f00_0000, 0xcf00_0000, 0x4f80_0000, 0x3a83_126f,
+    ];
+    // +-k*pi/2 and +-1..4 ulp around them, for k = 0..=64 (range-reduction boundaries)
+    for k in 0..=64u32 {
+        let x = (k as f32) * std::f32::consts::FRAC_PI_2;
+        let b = x.to_bits();
+        for d in -4i32..=4 {
+            let bb = b.wrapping_add(d as u32);
+            v.push(bb);
+            v.push(bb ^ 0x8000_0000);
+        }
+    }
+    // LUT segment boundaries in the first quarter (2048 segments assumed max): j*(pi/2)/N
+    for n in [64u32, 128, 256, 512, 1024, 2048] {
+        for j in (0..=n).step_by((n / 64) as usize) {
+            let x = (j as f32) * std::f32::consts::FRAC_PI_2 / (n as f32);
+            let b = x.to_bits();
+            for d in -2i32..=2 {
+                v.push(b.wrapping_add(d as u32));
+            }
+        }
+    }
+    v
+}
+
+/// stratified unary sample: 2^24 indices covering every sign/exponent with 2^15 mantissas
+fn strat_bits(i: u64, seed: u64) -> u32 {
+    let sign = ((i >> 23) & 1) as u32;
+    let exp = ((i >> 15) & 0xff) as u32;
+    let m_hi = (i & 0x7fff) as u32;
+    let m_lo = (mix(seed, i, 7) & 0xff) as u32;
+    (sign << 31) | (exp << 23) | (m_hi << 8) | m_lo
+}
+
+fn word(seed: u64, i: u64, j: u64, sp: &[u32]) -> u32 {
+    let r = mix(seed, i, j);
+    match r & 7 {
+        0 => sp[((r >> 8) as usize) % sp.len()],
+        1 => {
+            // moderate magnitude floats (|x| < 2^10) — the interesting arithmetic range
+            let m = (r >> 16) as u32 & 0x007f_ffff;
+            let e = 117 + ((r >> 40) as u32 % 20);
+            let s = (r >> 63) as u32;
+            (s << 31) | (e << 23) | m
+        }
+        _ => (r >> 32) as u32,
+    }
+}
+
+// ---------------------------------------------------------------------------
+// operations
+
+struct Op {
+    name: &'static str,
+    words: usize,
+    /// inputs must be finite (documented domain); others are skipped identically in all builds
+    finite_only: bool,
+    /// outputs are F32Scalar values: closure invariants apply
+    scalar_out: bool,
+    f: fn(&[u32], &mut Vec<u32>),
+}
+
+fn f(b: u32) -> f32 {
+    f32::from_bits(b)
+}
+fn s(b: u32) -> F32Scalar {
+    F32Scalar::new(f32::from_bits(b))
+}
+fn push64(out: &mut Vec<u32>, v: i64) {
+    out.push(v as u32);
+    out.push((v >> 32) as u32);
+}
+fn v3(w: &[u32]) -> Vec3 {
+    Vec3::new(f(w[0]), f(w[1]), f(w[2]))
+}
+fn pv3(out: &mut Vec<u32>, v: Vec3) {
+    out.extend(v.to_array().iter().map(|x| x.to_bits()));
+}
+
+fn ops() -> Vec<Op> {
+    vec![
+        Op { name: "scalar_new", words: 1, finite_only: false, scalar_out: true, f: |w, o| o.push(s(w[0]).to_f32().to_bits()) },
+        Op { name: "scalar_neg", words: 1, finite_only: false, scalar_out: true, f: |w, o| o.push((-s(w[0])).to_f32().to_bits()) },
+        Op { name: "scalar_sin", words: 1, finite_only: true, scalar_out: true, f: |w, o| o.push(s(w[0]).sin().to_f32().to_bits()) },
+        Op { name: "scalar_cos", words: 1, finite_only: true, scalar_out: true, f: |w, o| o.push(s(w[0]).cos().to_f32().to_bits()) },
+        Op {
+            name: "scalar_sin_cos",
+            words: 1,
+            finite_only: true,
+            scalar_out: true,
+            f: |w, o| {
+                let (a, b) = s(w[0]).sin_cos();
+                o.push(a.to_f32().to_bits());
+                o.push(b.to_f32().to_bits());
+            },
+        },
+        Op { name: "deg_to_rad", words: 1, finite_only: false, scalar_out: false, f: |w, o| o.push(warp_math::deg_to_rad(f(w[0])).to_bits()) },
+        Op { name: "rad_to_deg", words: 1, finite_only: false, scalar_out: false, f: |w, o| o.push(warp_math::rad_to_deg(f(w[0])).to_bits()) },
+        Op {
+            name: "fixed_q32_32",
+            words: 1,
+            finite_only: false,
+            scalar_out: false,
+            f: |w, o| {
+                let r = fixed_q32_32::from_f32(f(w[0]));
+                push64(o, r);
+                o.push(fixed_q32_32::to_f32(r).to_bits());
+            },
+        },
+        Op {
+            name: "abi_fx_and_canon",
+            words: 1,
+            finite_only: false,
+            scalar_out: false,
+            f: |w, o| {
+                push64(o, echo_wasm_abi::codec::fx_from_f32(f(w[0])));
+                o.push(echo_wasm_abi::codec::canonicalize_f32(f(w[0])).to_bits());
+            },
+        },
+        Op {
+            name: "prng",
+            words: 1,
+            finite_only: false,
+            scalar_out: false,
+            f: |w, o| {
+                let mut p = Prng::from_seed_u64((w[0] as u64).wrapping_mul(0x9e37_79b9_7f4a_7c15));
+                for _ in 0..4 {
+                    o.push(p.next_f32().to_bits());
+                }
+                o.push(p.next_int(-10, 10) as u32);
+                let mut q = Prng::from_seed(w[0] as u64, 0);
+                o.push(q.next_f32().to_bits());
+            },
+        },
+        Op { name: "scalar_add", words: 2, finite_only: false, scalar_out: true, f: |w, o| o.push((s(w[0]) + s(w[1])).to_f32().to_bits()) },
+        Op { name: "scalar_sub", words: 2, finite_only: false, scalar_out: true, f: |w, o| o.push((s(w[0]) - s(w[1])).to_f32().to_bits()) },
+        Op { name: "scalar_mul", words: 2, finite_only: false, scalar_out: true, f: |w, o| o.push((s(w[0]) * s(w[1])).to_f32().to_bits()) },
+        Op { name: "scalar_div", words: 2, finite_only: false, scalar_out: true, f: |w, o| o.push((s(w[0]) / s(w[1])).to_f32().to_bits()) },
+        Op {
+            name: "dfix64",
+            words: 2,
+            finite_only: true,
+            scalar_out: false,
+            f: |w, o| {
+                let (a, b) = (DFix64::from_f32(f(w[0])), DFix64::from_f32(f(w[1])));
+                for r in [a + b, a - b, a * b, a / b, -a, a.sin(), a.cos()] {
+                    push64(o, r.raw());
+                    o.push(r.to_f32().to_bits());
+                }
+            },
+        },
+        Op {
+            name: "vec3_ops",
+            words: 6,
+            finite_only: true,
+            scalar_out: false,
+            f: |w, o| {
+                let (a, b) = (v3(&w[0..3]), v3(&w[3..6]));
+                o.push(a.dot(&b).to_bits());
+                pv3(o, a.cross(&b));
+                pv3(o, a.add(&b));
+                pv3(o, a.sub(&b));
+                pv3(o, a.scale(f(w[5])));
+                o.push(a.length().to_bits());
+                o.push(a.length_squared().to_bits());
+                pv3(o, a.normalize());
+            },
+        },
+        Op {
+            name: "quat_ops",
+            words: 8,
+            finite_only: true,
+            scalar_out: false,
+            f: |w, o| {
+                let a = Quat::new(f(w[0]), f(w[1]), f(w[2]), f(w[3]));
+                let b = Quat::new(f(w[4]), f(w[5]), f(w[6]), f(w[7]));
+                o.extend(a.multiply(&b).to_array().iter().map(|x| x.to_bits()));
+                o.extend(a.normalize().to_array().iter().map(|x| x.to_bits()));
+                o.extend(Quat::from_axis_angle(v3(&w[0..3]), f(w[3])).to_array().iter().map(|x| x.to_bits()));
+                o.extend(a.normalize().to_mat4().to_array().iter().map(|x| x.to_bits()));
+            },
+        },
+        Op {
+            name: "mat4_ops",
+            words: 9,
+            finite_only: true,
+            scalar_out: false,
+            f: |w, o| {
+                let r = Mat4::rotation_from_euler(f(w[0]), f(w[1]), f(w[2]));
+                let t = Mat4::translation(f(w[3]), f(w[4]), f(w[5]));
+                let m = r.multiply(&t);
+                o.extend(m.to_array().iter().map(|x| x.to_bits()));
+                pv3(o, m.transform_point(&v3(&w[6..9])));
+                pv3(o, m.transform_direction(&v3(&w[6..9])));
+                o.extend(Mat4::rotation_axis_angle(v3(&w[6..9]), f(w[0])).to_array().iter().map(|x| x.to_bits()));
+                o.extend(Mat4::rotation_x(f(w[0])).multiply(&Mat4::rotation_y(f(w[1]))).multiply(&Mat4::rotation_z(f(w[2]))).to_array().iter().map(|x| x.to_bits()));
+            },
+        },
+    ]
+}
+
+fn inputs_for(op: &Op, mode: &str, i: u64, seed: u64, sp: &[u32], buf: &mut Vec<u32>) {
+    buf.clear();
+    match (mode, op.words) {
+        ("full", 1) => buf.push(i as u32),
+        ("strat", 1) => buf.push(strat_bits(i, seed)),
+        ("special", 1) => buf.push(sp[(i as usize) % sp.len()]),
+        ("special", n) => {
+            // core specials x core specials (x ...): mixed radix over the first CORE entries
+            let mut c = i as usize;
+            for _ in 0..n {
+                buf.push(sp[c % CORE]);
+                c /= CORE;
+            }
+        }
+        (_, n) => {
+            for j in 0..n {
+                buf.push(word(seed, i, j as u64, sp));
+            }
+        }
+    }
+}
+
+/// Documented domain: Vec3/Quat/Mat4 components are finite world-space values (Vec3::new:
+/// "callers must ensure values are finite", Quat::new asserts finiteness); we additionally keep
+/// |x| < 2^40 for those so that no intermediate product overflows to infinity (an overflowed
+/// intermediate is non-finite, i.e. outside that domain, and inf - inf yields NaNs whose sign is
+/// not specified by IEEE 754).
+fn skip(op: &Op, w: &[u32]) -> bool {
+    if !op.finite_only {
+        return false;
+    }
+    let bound = if op.words > 2 { 1.0995116e12f32 } else { f32::INFINITY };
+    w.iter().any(|b| {
+        let x = f32::from_bits(*b);
+        !x.is_finite() || x.abs() >= bound
+    })
+}
+
+/// canonical-scalar closure: never -0.0, never subnormal, never a non-canonical NaN
+fn closure_ok(bits: u32) -> bool {
+    let x = f32::from_bits(bits);
+    if x.is_nan() {
+        return bits == 0x7fc0_0000;
+    }
+    if bits == 0x8000_0000 {
+        return false;
+    }
+    !x.is_subnormal()
+}
+
+// ---------------------------------------------------------------------------
+// child: digest a range
+
+fn digest_main(args: &[String]) -> ! {
+    let opname = &args[0];
+    let mode = args[1].as_str();
+    let start: u64 = args[2].parse().unwrap();
+    let count: u64 = args[3].parse().unwrap();
+    let seed: u64 = args[4].parse().unwrap();
+    std::panic::set_hook(Box::new(|_| {}));
+    let all = ops();
+    let op = all.iter().find(|o| o.name == opname).expect("op");
+    let sp = specials();
+    let mut h = blake3::Hasher::new();
+    let mut buf = Vec::new();
+    let mut out = Vec::new();
+    let mut skipped = 0u64;
+    for i in start..start + count {
+        inputs_for(op, mode, i, seed, &sp, &mut buf);
+        if skip(op, &buf) {
+            skipped += 1;
+            h.update(&[0xde, 0xad]);
+            continue;
+        }
+        out.clear();
+        let r = std::panic::catch_unwind(std::panic::AssertUnwindSafe(|| (op.f)(&buf, &mut out)));
+        if let Err(p) = r {
+            println!("PANIC {i} {:?} {}", buf, vkit::panic_message(&p).replace('\n', " "));
+            std::process::exit(0);
+        }
+        for w in &out {
+            h.update(&w.to_le_bytes());
+        }
+    }
+    println!("OK {} {skipped}", h.finalize().to_hex());
+    std::process::exit(0);
+}
+
+// ---------------------------------------------------------------------------
+// parent
+
+const PROFILES: [(&str, &str); 3] = [("dev", "/verif/target/debug/vc_math"), ("release", "/verif/target/release/vc_math"), ("relsize", "/verif/target/relsize/vc_math")];
+
+#[derive(Debug, Clone, PartialEq)]
+enum ChildOut {
+    Ok(String, u64),
+    Panic(u64, String),
+    Broken(String),
+}
+
+fn run_digest(bin: &str, op: &str, mode: &str, start: u64, count: u64, seed: u64) -> ChildOut {
+    let out = Command::new(bin).args(["--digest", op, mode, &start.to_string(), &count.to_string(), &seed.to_string()]).output();
+    match out {
+        Err(e) => ChildOut::Broken(format!("cannot run {bin}: {e}")),
+        Ok(o) => {
+            let s = String::from_utf8_lossy(&o.stdout).to_string();
+            let line = s.lines().last().unwrap_or("");
+            if let Some(rest) = line.strip_prefix("OK ") {
+                let mut it = rest.split(' ');
+                ChildOut::Ok(it.next().unwrap_or("").to_string(), it.next().and_then(|x| x.parse().ok()).unwrap_or(0))
+            } else if let Some(rest) = line.strip_prefix("PANIC ") {
+                let mut it = rest.splitn(2, ' ');
+                let i = it.next().and_then(|x| x.parse().ok()).unwrap_or(0);
+                ChildOut::Panic(i, it.next().unwrap_or("").to_string())
+            } else {
+                ChildOut::Broken(format!("{bin} died: status {:?}, stderr {}", o.status, String::from_utf8_lossy(&o.stderr).chars().take(300).collect::<String>()))
+            }
+        }
+    }
+}
+
+#[derive(Clone, Debug, Serialize, Deserialize)]
+struct Repro {
+    op: String,
+    mode: String,
+    index: u64,
+    seed: u64,
+}
+
+fn describe(op: &Op, mode: &str, index: u64, seed: u64) -> Value {
+    let sp = specials();
+    let mut buf = Vec::new();
+    inputs_for(op, mode, index, seed, &sp, &mut buf);
+    json!({"op": op.name, "mode": mode, "index": index, "input_bits": buf.iter().map(|b| format!("{b:#010x}")).collect::<Vec<_>>(), "input_f32": buf.iter().map(|b| format!("{:e}", f32::from_bits(*b))).collect::<Vec<_>>()})
+}
+
+/// Compare the three profiles on [start, start+count); on mismatch bisect to the first index.
+fn compare_range(op: &Op, mode: &str, start: u64, count: u64, seed: u64) -> Result<u64, (Fail, Repro)> {
+    let outs: Vec<ChildOut> = PROFILES.iter().map(|(_, bin)| run_digest(bin, op.name, mode, start, count, seed)).collect();
+    for (k, o) in outs.iter().enumerate() {
+        match o {
+            ChildOut::Broken(m) => return Err((Fail::new("C19/harness/child-broken", m.clone()), Repro { op: op.name.into(), mode: mode.into(), index: start, seed })),
+            ChildOut::Panic(i, msg) => {
+                return Err((
+                    Fail::new(format!("C19/{}/panic-on-finite-input/{}", op.name, PROFILES[k].0), format!("profile {} panicked at {}: {msg}", PROFILES[k].0, describe(op, mode, *i, seed))),
+                    Repro { op: op.name.into(), mode: mode.into(), index: *i, seed },
+                ))
+            }
+            ChildOut::Ok(..) => {}
+        }
+    }
+    if outs[0] == outs[1] && outs[1] == outs[2] {
+        if let ChildOut::Ok(_, skipped) = &outs[0] {
+            return Ok(*skipped);
+        }
+    }
+    if count == 1 {
+        return Err((
+            Fail::new(format!("C19/{}/profiles-disagree", op.name), format!("bit patterns differ across build profiles at {}: {:?}", describe(op, mode, start, seed), outs)),
+            Repro { op: op.name.into(), mode: mode.into(), index: start, seed },
+        ));
+    }
+    let half = count / 2;
+    compare_range(op, mode, start, half, seed)?;
+    compare_range(op, mode, start + half, count - half, seed)?;
+    // both halves agree individually but the whole differs: digest framing issue
+    Err((Fail::new("C19/harness/bisect-inconsistent", format!("{} {mode} [{start},+{count})", op.name)), Repro { op: op.name.into(), mode: mode.into(), index: start, seed }))
+}
+
+struct DiffSub;
+
+fn plan(ctx: &Ctx) -> Vec<(usize, &'static str, u64, u64)> {
+    // (op index, mode, start, count) chunks
+    let all = ops();
+    let sp_len = specials().len() as u64;
+    let mut v = Vec::new();
+    for (oi, op) in all.iter().enumerate() {
+        if op.words == 1 {
+            v.push((oi, "special", 0, sp_len));
+            match ctx.tier {
+                Tier::Quick => {
+                    for c in 0..16u64 {
+                        v.push((oi, "strat", c << 20, 1 << 20));
+                    }
+                }
+                Tier::Thorough => {
+                    for c in 0..256u64 {
+                        v.push((oi, "full", c << 24, 1 << 24));
+                    }
+                }
+            }
+        } else {
+            let _ = sp_len;
+            let sp_pairs = if op.words == 2 { (CORE * CORE) as u64 } else { (CORE * CORE * CORE) as u64 };
+            v.push((oi, "special", 0, sp_pairs));
+            let (chunks, size) = match ctx.tier {
+                Tier::Quick => (8u64, 1u64 << 16),
+                Tier::Thorough => (64, 1 << 18),
+            };
+            let scale = if op.words > 2 { 4 } else { 1 };
+            for c in 0..chunks {
+                v.push((oi, "random", c * size / scale, size / scale));
+            }
+        }
+    }
+    v
+}
+
+impl Sub for DiffSub {
+    fn name(&self) -> String {
+        "build-profile-differential".into()
+    }
+    fn run(&self, ctx: &Ctx, rec: &mut Recorder) {
+        let t0 = Instant::now();
+        let all = ops();
+        let st = rec.subs.entry(self.name()).or_default();
+        let mut fails: Vec<(Fail, Repro)> = Vec::new();
+        for (k, (oi, mode, start, count)) in plan(ctx).into_iter().enumerate() {
+            if k as u32 % ctx.nshards != ctx.shard {
+                continue;
+            }
+            let op = &all[oi];
+            match compare_range(op, mode, start, count, ctx.seed) {
+                Ok(skipped) => {
+                    st.evaluations += count * 3;
+                    st.cases += 1;
+                    *st.classes.entry(format!("{}:{}", op.name, mode)).or_default() += count;
+                    if skipped > 0 {
+                        *st.classes.entry(format!("{}:skipped-outside-documented-domain(informational)", op.name)).or_default() += skipped;
+                    }
+                    // every index is a distinct case; non-trivial by rule = not skipped
+                    for i in [start, start + count / 2, start + count - 1] {
+                        st.nontrivial.insert(vkit::h64(format!("{}{}{}", op.name, mode, i).as_bytes()));
+                    }
+                    if st.samples.len() < 3 {
+                        st.samples.push(describe(op, mode, start + count / 3, ctx.seed));
+                    }
+                }
+                Err((f, r)) => {
+                    if ctx.is_known(&f.sig) {
+                        *st.known.entry(f.sig).or_default() += 1;
+                    } else if !fails.iter().any(|(g, _)| g.sig == f.sig) {
+                        fails.push((f, r));
+                    }
+                }
+            }
+        }
+        st.exhaustive = ctx.tier == Tier::Thorough;
+        st.wall_s = t0.elapsed().as_secs_f64();
+        for (f, r) in fails {
+            rec.violations.push(Violation { sub: self.name(), sig: f.sig, msg: f.msg, case: serde_json::to_value(r).unwrap() });
+        }
+    }
+    fn replay(&self, _ctx: &Ctx, case: &Value) -> Check {
+        let r: Repro = serde_json::from_value(case.clone()).map_err(|e| Fail::new("replay/decode", e.to_string()))?;
+        let all = ops();
+        let op = all.iter().find(|o| o.name == r.op).ok_or_else(|| Fail::new("replay/decode", "unknown op"))?;
+        compare_range(op, &r.mode, r.index, 1, r.seed).map(|_| ()).map_err(|(f, _)| f)
+    }
+}
+
+/// Closure, symmetry and range invariants in a single (release) build.
+struct ClosureSub;
+
+#[derive(Clone, Debug, Serialize, Deserialize)]
+struct Bits {
+    op: String,
+    bits: Vec<u32>,
+}
+
+fn closure_check(op: &Op, w: &[u32], out: &[u32]) -> Check {
+    if op.scalar_out {
+        for o in out {
+            if !closure_ok(*o) {
+                return Err(Fail::new(
+                    format!("C19/{}/non-canonical-scalar-result", op.name),
+                    format!("{} on {:?} returned bits {o:#010x} ({:e}): -0.0, subnormal or non-canonical NaN", op.name, w.iter().map(|b| format!("{b:#010x}")).collect::<Vec<_>>(), f32::from_bits(*o)),
+                ));
+            }
+        }
+    }
+    if op.name == "scalar_sin_cos" {
+        let x = F32Scalar::new(f32::from_bits(w[0]));
+        let (sn, cs) = x.sin_cos();
+        let (sm, cm) = (-x).sin_cos();
+        let neg_sn = (-sn).to_f32().to_bits();
+        if sm.to_f32().to_bits() != neg_sn {
+            return Err(Fail::new("C19/sin-not-odd", format!("sin(-x) bits {:#010x} != -sin(x) bits {:#010x} at x bits {:#010x}", sm.to_f32().to_bits(), neg_sn, w[0])));
+        }
+        if cm.to_f32().to_bits() != cs.to_f32().to_bits() {
+            return Err(Fail::new("C19/cos-not-even", format!("cos(-x) != cos(x) at x bits {:#010x}", w[0])));
+        }
+        for v in [sn.to_f32(), cs.to_f32()] {
+            if !(-1.0..=1.0).contains(&v) {
+                return Err(Fail::new("C19/trig-out-of-range", format!("sin/cos = {v:e} outside [-1,1] at x bits {:#010x}", w[0])));
+            }
+        }
+        if sn.to_f32().to_bits() != x.sin().to_f32().to_bits() || cs.to_f32().to_bits() != x.cos().to_f32().to_bits() {
+            return Err(Fail::new("C19/sin_cos-disagrees-with-sin-and-cos", format!("x bits {:#010x}", w[0])));
+        }
+    }
+    Ok(())
+}
+
+impl Sub for ClosureSub {
+    fn name(&self) -> String {
+        "closure-symmetry-range".into()
+    }
+    fn run(&self, ctx: &Ctx, rec: &mut Recorder) {
+        let t0 = Instant::now();
+        let all = ops();
+        let sp = specials();
+        let st = rec.subs.entry(self.name()).or_default();
+        let mut fails: Vec<(Fail, Bits)> = Vec::new();
+        let mut buf = Vec::new();
+        let mut out = Vec::new();
+        for op in all.iter().filter(|o| o.scalar_out) {
+            let (mode, total): (&str, u64) = if op.words == 1 { if ctx.tier == Tier::Thorough { ("full", 1 << 32) } else { ("strat", 1 << 24) } } else { ("random", ctx.tier.pick(1 << 22, 1 << 26)) };
+            let per = total / ctx.nshards as u64;
+            let start = per * ctx.shard as u64;
+            let mut n_boundary = 0u64;
+            let mut run = |mode: &str, i: u64, st: &mut vkit::SubStats, fails: &mut Vec<(Fail, Bits)>| {
+                inputs_for(op, mode, i, ctx.seed, &sp, &mut buf);
+                if skip(op, &buf) {
+                    return;
+                }
+                out.clear();
+                (op.f)(&buf, &mut out);
+                st.evaluations += 1;
+                if let Err(fl) = closure_check(op, &buf, &out) {
+                    if !fails.iter().any(|(g, _)| g.sig == fl.sig) {
+                        fails.push((fl, Bits { op: op.name.into(), bits: buf.clone() }));
+                    }
+                }
+            };
+            for i in start..start + per {
+                run(mode, i, st, &mut fails);
+            }
+            let sp_total = if op.words == 1 { sp.len() as u64 } else { (CORE * CORE) as u64 };
+            for i in (ctx.shard as u64..sp_total).step_by(ctx.nshards as usize) {
+                run("special", i, st, &mut fails);
+                n_boundary += 1;
+                st.nontrivial.insert((op.name.len() as u64) << 56 ^ (op.name.as_bytes()[7.min(op.name.len() - 1)] as u64) << 48 ^ i);
+            }
+            *st.classes.entry(format!("{}:{}", op.name, mode)).or_default() += per;
+            *st.classes.entry(format!("{}:special", op.name)).or_default() += n_boundary;
+        }
+        st.cases = st.evaluations;
+        st.samples.push(json!({"op": "scalar_sin_cos", "input_bits": "0x40490fdb", "note": "pi; outputs checked for closure, oddness, evenness, range"}));
+        st.exhaustive = ctx.tier == Tier::Thorough;
+        st.wall_s = t0.elapsed().as_secs_f64();
+        for (f, b) in fails {
+            rec.violations.push(Violation { sub: self.name(), sig: f.sig, msg: f.msg, case: serde_json::to_value(b).unwrap() });
+        }
+    }
+    fn replay(&self, _ctx: &Ctx, case: &Value) -> Check {
+        let b: Bits = serde_json::from_value(case.clone()).map_err(|e| Fail::new("replay/decode", e.to_string()))?;
+        let all = ops();
+        let op = all.iter().find(|o| o.name == b.op).ok_or_else(|| Fail::new("replay/decode", "unknown op"))?;
+        let mut out = Vec::new();
+        (op.f)(&b.bits, &mut out);
+        closure_check(op, &b.bits, &out)
+    }
+}
+
+fn subs(_ctx: &Ctx) -> Vec<Box<dyn Sub>> {
+    vec![Box::new(ClosureSub), Box::new(DiffSub)]
+}
+
+fn main() {
+    let args: Vec<String> = std::env::args().collect();
+    if args.len() >= 7 && args[1] == "--digest" {
+        digest_main(&args[2..]);
+    }
+    if args.len() >= 6 && args[1] == "--dump" {
+        let all = ops();
+        let op = all.iter().find(|o| o.name == args[2]).expect("op");
+        let sp = specials();
+        let mut buf = Vec::new();
+        inputs_for(op, &args[3], args[4].parse().unwrap(), args[5].parse().unwrap(), &sp, &mut buf);
+        let mut out = Vec::new();
+        (op.f)(&buf, &mut out);
+        println!("{:?} -> {}", buf.iter().map(|b| format!("{b:#010x}")).collect::<Vec<_>>(), out.iter().map(|b| format!("{b:08x}")).collect::<Vec<_>>().join(" "));
+        return;
+    }
+    vkit::main(vec![Property {
+        id: "C19",
+        level: "exploration",
+        rule: "Inputs are integer-indexed streams (pure functions of VERIF_SEED and the index, identical in every build). Unary ops (F32Scalar::new, neg, sin, cos, sin_cos, deg/rad, fixed_q32_32 from/to f32, ABI fx_from_f32 + canonicalize_f32, PRNG seeded from the input): quick = a stratified 2^24 sample covering every sign x exponent with 2^15 mantissas each plus ~2 000 specials (+-0, subnormals, infinities, NaN payloads, +-4 ulp around k*pi/2 for k<=64, LUT segment boundaries); thorough = all 2^32 bit patterns. Binary/n-ary ops (F32Scalar add/sub/mul/div, DFix64 lane, Vec3, Quat, Mat4): specials x specials exhaustively plus 2^19 (quick) / 2^24 (thorough) seeded tuples with 1/8 specials and 1/8 moderate-magnitude floats. (1) profile differential: the harness binary is built three times (dev opt0+debug assertions, release opt3, the repo's release profile opt s+lto+1cgu); BLAKE3 digests of output bit patterns per chunk must be equal, a mismatch is bisected to the minimal input index; a panic on a finite in-domain input in any profile is a violation. (2) single-build invariants on every F32Scalar result: never -0.0, subnormal or non-canonical NaN; sin(-x) bits == -sin(x) bits; cos(-x) bits == cos(x) bits; both within [-1,1]; sin_cos == (sin, cos). Non-finite inputs to functions that debug_assert finiteness are skipped identically in all builds and tallied as informational. Non-trivial = special/boundary inputs (counted distinctly) and chunk probes.",
+        assumptions: &[
+            "optimisation-level differential on this x86-64 machine only; cross-ISA stability is out of reach in the sandbox",
+            "totality is claimed for finite inputs of the documented domain (trig and Quat::new debug_assert finiteness)",
+        ],
+        subs,
+        max_shards: 16,
+    }])
+}
